@@ -11,7 +11,8 @@ import ast
 import re
 
 from ..core.tree import AnalysisError
-from ..core.astutil import walk_no_nested, call_name, short, src
+from ..core.constfold import Folder
+from ..core.astutil import walk_no_nested, call_name, short, src, closure_nodes, resolve_local
 from ..engines import effects as E
 from ..engines.taintrules import rule_escape_once, judge_piece, data_pieces
 from ..spec import hazards as H
@@ -61,11 +62,9 @@ def webvtt_text(ctx, report):
     # clause 2: table of the encoder itself (order and completeness), read from its source
     enc = ctx.index.get_function("pycaption/webvtt.py", "WebVTTWriter._encode_illegal_characters")
     report.covered(enc)
-    steps = []
-    for n in walk_no_nested(enc.node):
-        if isinstance(n, ast.Call) and isinstance(n.func, ast.Attribute) and n.func.attr == "replace" and len(n.args) == 2 \
-                and all(isinstance(a, ast.Constant) for a in n.args):
-            steps.append(f"replace:{n.args[0].value}→{n.args[1].value}")
+    from ..engines.strsteps import replace_steps
+    folder = ctx.memo("folder", lambda: Folder(ctx.index))
+    steps = [f"replace:{a}→{b}" for k, a, b, _ in replace_steps(enc, folder, "WebVTT encoder") if k == "replace"]
     covered, amp, problems = H.coverage(tuple(steps))
     need = H.CONTEXT_HAZARDS["webvtt-cue-text"]
     report.check(need <= covered and amp == 1 and not problems, "R-ESCAPE-TABLE", enc,
@@ -76,53 +75,55 @@ def webvtt_text(ctx, report):
 def blank_lines(ctx, report):
     idx = ctx.index
     # WebVTT --------------------------------------------------------------------------------
-    fn = idx.get_function("pycaption/webvtt.py", "WebVTTWriter._group_cues_by_layout")
-    report.covered(fn)
-    text_appends = [n for n in walk_no_nested(fn.node) if isinstance(n, ast.AugAssign) and src(n.target) == "s"
-                    and "_encode_illegal_characters" in src(n.value)]
-    if len(text_appends) != 1:
-        raise AnalysisError("_group_cues_by_layout: text append not found")
-    v = text_appends[0].value
-    ok = isinstance(v, ast.BoolOp) and isinstance(v.op, ast.Or) and isinstance(v.values[-1], ast.Constant) \
-        and isinstance(v.values[-1].value, str) and v.values[-1].value.strip() != ""
-    report.check(ok, "R-BLANKLINE", (fn, text_appends[0]), "an empty text node is written as a visible placeholder, never as nothing",
-                 {"appended": src(v), "why": "an empty text between two breaks would leave a blank line that ends the cue"}, "3")
-    brk = None
-    for n in walk_no_nested(fn.node):
-        if isinstance(n, ast.If) and "CaptionNode.BREAK" in src(n.test):
-            brk = n
-    if brk is None:
-        raise AnalysisError("_group_cues_by_layout: BREAK branch not found")
-    guards = [src(n.test) for n in brk.body if isinstance(n, ast.If) and any(
-        isinstance(s, ast.AugAssign) and isinstance(s.value, ast.Constant) and str(s.value.value).strip() for s in n.body)]
-    need = {"i > 0 and nodes[i - 1].type_ != CaptionNode.TEXT", "i == 0"}
-    nl = [s for s in brk.body if isinstance(s, ast.AugAssign) and isinstance(s.value, ast.Constant) and s.value.value == "\n"]
-    order_ok = bool(nl) and all(isinstance(x, ast.If) for x in brk.body[:brk.body.index(nl[0])])
-    report.check(set(guards) >= need and len(nl) == 1 and order_ok, "R-BLANKLINE", (fn, brk),
-                 "a break after anything but text (or at the very start) first writes a placeholder",
-                 {"placeholder_guards": guards, "required": sorted(need)}, "3")
+    from . import webvtt_cues
+    webvtt_cues.blank_lines(ctx, report, "3")
     # SRT and MicroDVD: collapse of doubled newlines between assembly and emission ---------------
     for path, q, sep in (("pycaption/srt.py", "SRTWriter._recreate_lang", "\n"),
                          ("pycaption/microdvd.py", "MicroDVDWriter._recreate_lang", "\n")):
         f = idx.get_function(path, q)
         report.covered(f)
-        collapse = []
-        for n in walk_no_nested(f.node):
+        # collapse constructs anywhere in the routine or the private helpers it calls
+        collapse = []      # (owner function, node, collapsed variable)
+        for f2, n in closure_nodes(idx, f, (ast.While, ast.Call)):
             if isinstance(n, ast.While) and isinstance(n.test, ast.Compare) and isinstance(n.test.ops[0], ast.In) \
                     and isinstance(n.test.left, ast.Constant) and n.test.left.value == sep * 2:
-                body_ok = any(isinstance(s, ast.Assign) and isinstance(s.value, ast.Call) and
-                              isinstance(s.value.func, ast.Attribute) and s.value.func.attr == "replace" and
-                              [getattr(a, "value", None) for a in s.value.args] == [sep * 2, sep] and
-                              src(s.targets[0]) == src(n.test.comparators[0]) for s in n.body)
+                var = src(n.test.comparators[0])
+                body_ok = any(isinstance(s_, ast.Assign) and isinstance(s_.value, ast.Call) and
+                              isinstance(s_.value.func, ast.Attribute) and s_.value.func.attr == "replace" and
+                              [getattr(a_, "value", None) for a_ in s_.value.args] == [sep * 2, sep] and
+                              src(s_.targets[0]) == var and src(s_.value.func.value) == var for s_ in n.body)
                 if body_ok:
-                    collapse.append(n)
+                    collapse.append((f2, n, var))
             if isinstance(n, ast.Call) and call_name(n) == "re.sub" and n.args and isinstance(n.args[0], ast.Constant) \
-                    and n.args[0].value in (r"\n+", r"\n{2,}", "\n+", "\n\n+"):
-                collapse.append(n)
-        emit = [n for n in walk_no_nested(f.node) if isinstance(n, ast.AugAssign) and "new_content" in src(n.value)]
-        ok = bool(collapse) and bool(emit) and all(c.lineno < emit[-1].lineno for c in collapse)
+                    and n.args[0].value in (r"\n+", r"\n{2,}", "\n+", "\n\n+") and len(n.args) >= 3:
+                collapse.append((f2, n, src(n.args[2])))
+        # emissions: additions to the accumulator the routine returns
+        rets = [n.value for n in walk_no_nested(f.node) if isinstance(n, ast.Return) and n.value is not None]
+        names = {x.id for r_ in rets for x in ast.walk(r_) if isinstance(x, ast.Name)}
+        aug = {src(n.target) for n in walk_no_nested(f.node) if isinstance(n, ast.AugAssign)}
+        cand = sorted(names & aug)
+        if len(cand) != 1:
+            raise AnalysisError(f"{q}: the accumulator returned by the routine is not recognised ({cand})")
+        acc = cand[0]
+        emits = [n for n in walk_no_nested(f.node) if isinstance(n, ast.AugAssign) and src(n.target) == acc]
+        if not emits:
+            raise AnalysisError(f"{q}: no emission into {acc}")
+        derived = []
+        for cf, cn, var in collapse:
+            for e_ in emits:
+                if cf is f:
+                    if re.search(r"(?<![\w.])" + re.escape(var) + r"(?![\w])", src(e_.value)) and cn.lineno < e_.lineno:
+                        derived.append(e_)
+                else:
+                    rv = [n.value for n in walk_no_nested(cf.node) if isinstance(n, ast.Return) and n.value is not None]
+                    returns_var = len(rv) == 1 and (src(rv[0]) == var or var in src(resolve_local(cf, rv[0])))
+                    txt = src(resolve_local(f, e_.value))
+                    if returns_var and re.search(r"\b" + re.escape(cf.name) + r"\(", txt):
+                        derived.append(e_)
+        ok = bool(collapse) and bool(derived)
         report.check(ok, "R-BLANKLINE", f, "runs of line breaks are collapsed before the cue text is emitted",
-                     {"collapse_steps": [short(c) for c in collapse],
+                     {"collapse_steps": [f"{cf.qualname}: {short(cn)}" for cf, cn, _ in collapse],
+                      "emissions_of_the_collapsed_text": [short(e_) for e_ in derived],
                       "why": None if ok else "two consecutive BREAK nodes write an empty line, which ends the cue block"}, "3")
     # MicroDVD: breaks are pipes; the trailing `|\n` clean-up
     # DFXP / SAMI write <br/>
@@ -130,6 +131,21 @@ def blank_lines(ctx, report):
                     ("pycaption/sami.py", "SAMIWriter._recreate_text")):
         f = idx.get_function(path, q)
         report.covered(f)
-        ok = any(isinstance(n, ast.Constant) and isinstance(n.value, str) and n.value.startswith("<br/>")
-                 for n in walk_no_nested(f.node))
+        ok = any(v.startswith("<br/>") for v in _strings_used(ctx, f))
         report.check(ok, "R-BLANKLINE", f, "a break is written as <br/> markup (no blank line semantics)", None, "3")
+
+
+def _strings_used(ctx, f):
+    """string literals of a routine and of the module-level constants it names"""
+    folder = ctx.memo("folder", lambda: Folder(ctx.index))
+    out = []
+    for n in walk_no_nested(f.node):
+        if isinstance(n, ast.Constant) and isinstance(n.value, str):
+            out.append(n.value)
+        elif isinstance(n, ast.Name) and isinstance(n.ctx, ast.Load):
+            b = ctx.index.resolve(f.module, n.id)
+            if b is not None and b.kind == "const":
+                v = folder.try_value(b.module, b.name)
+                if isinstance(v, str):
+                    out.append(v)
+    return out
